@@ -72,23 +72,44 @@ def pipeline(job):
     ev = []
     ncols = N * W
     for si, a in enumerate(series):
-        out = dp.stack_training_data(a, W)
+        try:
+            out = dp.stack_training_data(a, W)
+            tk = tokens(out, lookup)
+            rows = out.shape[0]
+            ev.append({"kind": "stack", "s": si + 1,
+                       "tok": [tk[r * out.shape[1]:(r + 1) * out.shape[1]] for r in range(rows)],
+                       "input_same": a.tobytes() == snap[si]})
+        except Exception as ex:                              # pylint: disable=broad-except
+            ev.append({"kind": "stack", "s": si + 1, "tok": [], "input_same": a.tobytes() == snap[si],
+                       "raised": type(ex).__name__ + ": " + str(ex)[:120]})
+    try:
+        out = dp.stack_training_data_multiple_series(series, W)
         tk = tokens(out, lookup)
-        rows = out.shape[0]
-        ev.append({"kind": "stack", "s": si + 1,
-                   "tok": [tk[r * out.shape[1]:(r + 1) * out.shape[1]] for r in range(rows)],
-                   "input_same": a.tobytes() == snap[si]})
-    out = dp.stack_training_data_multiple_series(series, W)
-    tk = tokens(out, lookup)
-    ev.append({"kind": "multi", "tok": [tk[r * out.shape[1]:(r + 1) * out.shape[1]] for r in range(out.shape[0])],
-               "input_same": all(a.tobytes() == s for a, s in zip(series, snap))})
+        ev.append({"kind": "multi", "tok": [tk[r * out.shape[1]:(r + 1) * out.shape[1]] for r in range(out.shape[0])],
+                   "input_same": all(a.tobytes() == s for a, s in zip(series, snap))})
+    except Exception as ex:                                  # pylint: disable=broad-except
+        ev.append({"kind": "multi", "tok": [], "input_same": all(a.tobytes() == s for a, s in zip(series, snap)),
+                   "raised": type(ex).__name__ + ": " + str(ex)[:120]})
     lens = [T - W + 1 for T in Ts]
-    tpl = dp.label_switching_cost_template(list(lens))
-    ev.append({"kind": "template", "out": [int(v) if float(v) == int(v) else -7 for v in tpl]})
+    # a helper that RAISES on a valid input is recorded as an empty output: the shape clause of its event then
+    # fails under the helper's own property (never a crash of the driver)
+    try:
+        tpl = dp.label_switching_cost_template(list(lens) if rng.random() < 0.5 else tuple(lens))
+        ev.append({"kind": "template", "out": [int(v) if float(v) == int(v) else -7 for v in tpl]})
+    except Exception as ex:                                  # pylint: disable=broad-except
+        ev.append({"kind": "template", "out": [], "raised": type(ex).__name__ + ": " + str(ex)[:120]})
     joint = [rng.randrange(K) for _ in range(sum(lens))]
-    parts = dp.split_joint_labels(list(joint), list(lens))
-    ev.append({"kind": "split", "joint": joint, "out": [[int(x) for x in p] for p in parts]})
+    try:
+        parts = dp.split_joint_labels(list(joint), list(lens))
+        ev.append({"kind": "split", "joint": joint, "out": [[int(x) for x in p] for p in parts]})
+    except Exception as ex:                                  # pylint: disable=broad-except
+        parts = []
+        ev.append({"kind": "split", "joint": joint, "out": [], "raised": type(ex).__name__ + ": " + str(ex)[:120]})
     for si, p in enumerate(parts):
-        padded = dp.pad_missing_labels(list(p), W)
-        ev.append({"kind": "pad", "s": si + 1, "part": [int(x) for x in p], "out": [int(x) for x in padded]})
+        try:
+            padded = dp.pad_missing_labels(list(p), W)
+            ev.append({"kind": "pad", "s": si + 1, "part": [int(x) for x in p], "out": [int(x) for x in padded]})
+        except Exception as ex:                              # pylint: disable=broad-except
+            ev.append({"kind": "pad", "s": si + 1, "part": [int(x) for x in p], "out": [],
+                       "raised": type(ex).__name__ + ": " + str(ex)[:120]})
     return {"Ts": list(Ts), "W": W, "N": N, "events": ev}
